@@ -330,6 +330,30 @@ def undescribe_image(d):
 GAPS = [1, 2, 3, 4, 5, 8]
 
 
+LATTICES = ['int', 'int', 'half', 'quarter', 'quarter', 'unit']
+
+
+def gen_axis(rng, n, lattice):
+    """n strictly increasing grid coordinates (exact dyadics, multiples of 1/4): integer lattice with gaps
+    1..8; half / quarter lattices with gaps < 1 mixed with larger, non-uniform ones and fractional or
+    negative starts (several lines inside one unit interval, lines on both sides of 0); 'unit' =
+    normalised detector coordinates, a subset of {0, 1/4, 1/2, 3/4, 1}."""
+    if lattice == 'int':
+        g = [F(rng.randint(-10, 10))]
+        gaps = [F(v) for v in GAPS]
+    elif lattice == 'half':
+        g = [F(rng.randint(-12, 12), 2)]
+        gaps = [F(1, 2), F(1, 2), F(1), F(3, 2), F(2)]
+    elif lattice == 'quarter':
+        g = [F(rng.randint(-12, 8), 4)]
+        gaps = [F(1, 4), F(1, 4), F(1, 2), F(3, 4), F(1), F(5, 4)]
+    else:
+        return sorted(rng.sample([F(0), F(1, 4), F(1, 2), F(3, 4), F(1)], n))
+    for _ in range(n - 1):
+        g.append(g[-1] + rng.choice(gaps))
+    return g
+
+
 def gen_grid_case(rng):
     ny, nx = rng.randint(4, 6), rng.randint(4, 6)
     layout = rng.choice(['rect', 'rect', 'rect', 'row', 'col', 'single', 'two'])
@@ -343,12 +367,8 @@ def gen_grid_case(rng):
         gx, gy = 1, 1
     else:
         gx, gy = 2, 2
-    xg = [rng.randint(-10, 10)]
-    for _ in range(gx - 1):
-        xg.append(xg[-1] + rng.choice(GAPS))
-    yg = [rng.randint(-10, 10)]
-    for _ in range(gy - 1):
-        yg.append(yg[-1] + rng.choice(GAPS))
+    lat_x, lat_y = rng.choice(LATTICES), rng.choice(LATTICES)
+    xg, yg = gen_axis(rng, gx, lat_x), gen_axis(rng, gy, lat_y)
     pos = [(x, y) for y in yg for x in xg]
     order = rng.choice(['sorted', 'shuffled', 'xmajor'])
     if order == 'shuffled':
@@ -368,24 +388,24 @@ def gen_grid_case(rng):
         if rk == 'node':
             x_0, y_0 = F(rng.choice(xg)), F(rng.choice(yg))
         elif rk == 'inside':
-            x_0 = F(rng.randint(8 * xg[0], 8 * xg[-1]), 8)
-            y_0 = F(rng.randint(8 * yg[0], 8 * yg[-1]), 8)
+            x_0 = F(rng.randint(int(8 * xg[0]), int(8 * xg[-1])), 8)
+            y_0 = F(rng.randint(int(8 * yg[0]), int(8 * yg[-1])), 8)
         elif rk == 'mid':
             i, j = rng.randrange(max(1, gx - 1)), rng.randrange(max(1, gy - 1))
             x_0 = F(xg[i] + xg[min(i + 1, gx - 1)], 2)
             y_0 = F(yg[j] + yg[min(j + 1, gy - 1)], 2)
         elif rk == 'edge':   # on a grid line in one axis, between nodes in the other
             x_0 = F(rng.choice(xg))
-            y_0 = F(rng.randint(8 * yg[0], 8 * yg[-1]), 8)
+            y_0 = F(rng.randint(int(8 * yg[0]), int(8 * yg[-1])), 8)
             if rng.random() < 0.5:
-                x_0, y_0 = F(rng.randint(8 * xg[0], 8 * xg[-1]), 8), F(rng.choice(yg))
+                x_0, y_0 = F(rng.randint(int(8 * xg[0]), int(8 * xg[-1])), 8), F(rng.choice(yg))
         elif rk == 'outside':
             x_0 = rng.choice([F(xg[0]) - F(rng.randint(1, 40), 8), F(xg[-1]) + F(rng.randint(1, 40), 8),
-                              F(rng.randint(8 * xg[0], 8 * xg[-1]), 8)])
+                              F(rng.randint(int(8 * xg[0]), int(8 * xg[-1])), 8)])
             y_0 = rng.choice([F(yg[0]) - F(rng.randint(1, 40), 8), F(yg[-1]) + F(rng.randint(1, 40), 8)])
             if rng.random() < 0.5:
                 x_0, y_0 = (rng.choice([F(xg[0]) - F(rng.randint(1, 40), 8), F(xg[-1]) + F(rng.randint(1, 40), 8)]),
-                            F(rng.randint(8 * yg[0], 8 * yg[-1]), 8))
+                            F(rng.randint(int(8 * yg[0]), int(8 * yg[-1])), 8))
         else:
             x_0 = rng.choice([F(xg[0]) - 3, F(xg[-1]) + F(5, 2)])
             y_0 = rng.choice([F(yg[0]) - F(1, 8), F(yg[-1]) + 7])
@@ -394,7 +414,7 @@ def gen_grid_case(rng):
         ops.append(dict(op='eval', flux=flux, x_0=x_0, y_0=y_0, pts=pts, refkind=rk,
                         shape2d=rng.random() < 0.2))
     return dict(kind='grid', stamps=stamps, pos=pos, xg=xg, yg=yg, os=(osy, osx), os_scalar=os_scalar,
-                fill=fill, ops=ops, stats=dict(layout=layout, order=order))
+                fill=fill, ops=ops, stats=dict(layout=layout, order=order, lattice_x=lat_x, lattice_y=lat_y))
 
 
 def make_grid(c):
@@ -402,7 +422,7 @@ def make_grid(c):
     from photutils.psf import GriddedPSFModel
     osy, osx = c['os']
     nd = NDData(np.array(c['stamps'], float),
-                meta={'grid_xypos': [tuple(p) for p in c['pos']],
+                meta={'grid_xypos': [(float(p[0]), float(p[1])) for p in c['pos']],
                       'oversampling': osy if c['os_scalar'] else (osy, osx)})
     return GriddedPSFModel(nd, fill_value=c['fill'])
 
@@ -432,9 +452,11 @@ def run_grid(c):
 
 
 def grid_D(c):
-    gx = [b - a for a, b in zip(c['xg'], c['xg'][1:])] or [1]
-    gy = [b - a for a, b in zip(c['yg'], c['yg'][1:])] or [1]
-    return 4 * 64 * lcm(*gx) * lcm(*gy)
+    """Denominator of the exact lattice of the blended values: flux in Z/4, each axis weight in
+    Z/(8*gap) (reference coordinates are multiples of 1/8, gaps multiples of 1/4)."""
+    gx = [int(8 * (b - a)) for a, b in zip(c['xg'], c['xg'][1:])] or [8]
+    gy = [int(8 * (b - a)) for a, b in zip(c['yg'], c['yg'][1:])] or [8]
+    return 4 * lcm(*gx) * lcm(*gy)
 
 
 def grid_to_coq(c, out, keys):
@@ -514,7 +536,8 @@ def describe_grid(c):
                             refkind=op.get('refkind')))
         else:
             ops.append(dict(op=op['op']))
-    return dict(kind='grid', stamps=c['stamps'], grid_xypos=[list(p) for p in c['pos']], xg=c['xg'], yg=c['yg'],
+    return dict(kind='grid', stamps=c['stamps'], grid_xypos=[[str(p[0]), str(p[1])] for p in c['pos']], xg=[str(v) for v in c['xg']],
+                yg=[str(v) for v in c['yg']],
                 oversampling=list(c['os']), os_scalar=c['os_scalar'],
                 fill=('nan' if isinstance(c['fill'], float) and math.isnan(c['fill']) else c['fill']), ops=ops)
 
@@ -528,7 +551,8 @@ def undescribe_grid(d):
                             refkind=op.get('refkind')))
         else:
             ops.append(dict(op=op['op']))
-    return dict(kind='grid', stamps=d['stamps'], pos=[tuple(p) for p in d['grid_xypos']], xg=d['xg'], yg=d['yg'],
+    return dict(kind='grid', stamps=d['stamps'], pos=[(F(p[0]), F(p[1])) for p in d['grid_xypos']], xg=[F(v) for v in d['xg']],
+                yg=[F(v) for v in d['yg']],
                 os=tuple(d['oversampling']), os_scalar=d['os_scalar'],
                 fill=(NAN if d['fill'] == 'nan' else d['fill']), ops=ops)
 
@@ -937,7 +961,7 @@ def run(ctx):
         'ImagePSF: stamps 4..7 px of integers, oversampling 1..8 (scalar/pair, unequal axes), origin None / integer / '
         'half / quarter / outside the array, fill 0/NaN/finite/None, dyadic centres, points = sample points, points on '
         'and 1/8 px around the border of the sampled range, random lattice points, 1-D and 2-D inputs, prior '
-        'evaluate/copy/deepcopy histories. GriddedPSFModel: 1x1, 1xN, Nx1, 2x2..4x3 grids with unequal gaps, input '
+        'evaluate/copy/deepcopy histories. GriddedPSFModel: 1x1, 1xN, Nx1, 2x2..4x3 grids; per axis an integer lattice (gaps 1..8), a half or quarter lattice (gaps 1/4..2, non-uniform, fractional and negative positions, several grid lines inside one unit interval and on both sides of 0) or normalised coordinates (subset of 0, 1/4, 1/2, 3/4, 1); input '
         'order sorted/shuffled/x-major, reference point on a node / cell interior / grid line / midpoint / outside an '
         'edge / outside a corner, histories of 1-4 evaluations with copy()/deepcopy(). Analytic: five Gaussian '
         'PRF/PSF classes with stand-in primitives on the dyadic lattice. Shared-array histories (ImagePSF, '
@@ -1096,7 +1120,7 @@ def run(ctx):
                     sig, what = 'GriddedPSFModel:bounding_box', 'bounding box is not the stamp extent about (x_0, y_0)'
                 elif one:
                     sig, what = ('GriddedPSFModel:single-row-or-column-grid',
-                                 'grid with a single row/column: result is not the stored ePSF / linear blend (NaN)')
+                                 'grid with a single row/column: result is not the stored ePSF / the linear blend along the row/column')
                 else:
                     sig, what = ('GriddedPSFModel:bilinear',
                                  'result is not the stored ePSF at a node / the bilinear blend in a cell / the '
